@@ -86,7 +86,7 @@ theorem save_linear_events (r : Repo) (hl : Linear r) :
   obtain ⟨r1, file1, buf⟩ := res
   simp only at hev0 hst0 f1 f2 f3 f4 f5 f6
   have hsm : saveMainBranch r = .ok ((r1.emit (StoreEv.mainWrite file1.toNat buf)).emit (StoreEv.mainRemove (file1 + 1).toNat)) := by
-    unfold saveMainBranch
+    unfold saveMainBranch saveMainStart
     simp only [hno, ↓reduceIte, hgo]
   have hbr2 : ((r1.emit (StoreEv.mainWrite file1.toNat buf)).emit (StoreEv.mainRemove (file1 + 1).toNat)).br 0 = r.br 0 := by
     unfold Repo.br; simp only [Repo.emit, f1]
